@@ -563,9 +563,24 @@ def normalise_names(facts):
     function that still has the same number of parameters. Returns {path: {current name: pinned name}} for the evidence."""
     ref = known_params()
     out = {}
+    # closures are numbered in source order: when a closure is added to or removed from a function, the later ones change their paths, and the
+    # names recorded for `f::{closure#1}` belong to another closure. Names are mapped for a function's closures only when the set of its
+    # closure paths is the pinned one.
+    def parent_of(pth):
+        return pth.split("::{closure#")[0]
+    cur_sets, ref_sets = {}, {}
+    for pth in facts.bodies:
+        if "::{closure#" in pth:
+            cur_sets.setdefault(parent_of(pth), set()).add(pth)
+    for pth in ref:
+        if "::{closure#" in pth:
+            ref_sets.setdefault(parent_of(pth), set()).add(pth)
+    renumbered = {par for par in set(cur_sets) | set(ref_sets) if cur_sets.get(par, set()) != ref_sets.get(par, set())}
     for path, b in facts.bodies.items():
         r = ref.get(path)
         if r is None:
+            continue
+        if "::{closure#" in path and parent_of(path) in renumbered:
             continue
         bj = b.j
         ren = {}
@@ -616,6 +631,8 @@ def normalise_names(facts):
         for blk in bj["blocks"]:
             for st in blk["st"]:
                 if st["k"] == "a" and st["r"].get("k") == "agg" and st["r"].get("ak") in ("closure", "coroutine"):
+                    if parent_of(str(st["r"].get("def"))) in renumbered and "::{closure#" in str(st["r"].get("def")):
+                        continue
                     cu = (ref.get(st["r"].get("def")) or {}).get("upvars")
                     if cu and st["r"].get("fields"):
                         for i, nm in enumerate(st["r"]["fields"]):
